@@ -780,7 +780,7 @@ Theorem tr_sbuf_terminator_inside m p cs sz ops d fuel :
     callf cprog fuel (S (S d)) F_sbuf_buf [VPtr p 0] m1 = Ok (VPtr b 0, m2) /\
     nth_error m2 b = Some (map VInt csk ++ VInt 0 :: rest) /\
     Z.of_nat (length (map VInt csk ++ VInt 0 :: rest)) = sb_sz sbk /\ sb_n sbk = Z.of_nat (length csk) /\ 0 <= sb_n sbk < sb_sz sbk /\
-    sbuf_rep m2 p csk (sb_sz sbk) /\ sbuf_step m m2 p.
+    sbuf_rep m2 p csk (sb_sz sbk) /\ sbuf_step m m2 p /\ sbuf_datab m2 p = Some b /\ sbk = sb_model csk (sb_sz sbk).
 Proof.
   intros R Hs Hf sbk csk.
   destruct (tr_sbuf_ops m p cs sz ops d fuel R Hs Hf) as [m1 [E1 [R1 [M1 S1]]]]. fold csk in R1, M1.
@@ -789,5 +789,81 @@ Proof.
   exists m1, b, m2, rest. split; [exact E1|]. split; [exact E2|]. split; [exact Hd2|].
   split; [rewrite app_length, map_length; cbn [length]; exact Hl2|].
   assert (Hn : sb_n sbk = Z.of_nat (length csk)) by (unfold sbk; rewrite M1, buf_sz_model; reflexivity).
-  split; [exact Hn|]. split; [lia|]. split; [exact R2|]. apply (sbuf_step_trans _ m1); assumption.
+  split; [exact Hn|]. split; [lia|]. split; [exact R2|]. split; [apply (sbuf_step_trans _ m1); assumption|].
+  split; [exact D2|]. unfold sbk. rewrite M1, buf_sz_model. reflexivity.
+Qed.
+
+(* ------------------------------------------------------------------ sizes stay small: no overflow below 500 MB *)
+Definition sz_small (n sz : Z) : Prop := 0 <= n /\ 0 <= sz <= 2 * n + 2 * SBUFSZ.
+Lemma SBUFSZ_range : 1 <= SBUFSZ <= 1024.
+Proof. split; discriminate. Qed.
+Lemma mem_sz_small n sz len : sz_small n sz -> 0 <= len ->
+  sz_small (n + len) (if sz <=? n + len + 1 then NEXTSZ sz (len + 1) else sz).
+Proof.
+  intros [Hn Hsz] Hlen. unfold sz_small. pose proof SBUFSZ_range.
+  destruct (Z.leb_spec sz (n + len + 1)); [|lia].
+  pose proof (NEXTSZ_ge sz (len + 1) ltac:(lia) ltac:(lia)). pose proof (NEXTSZ_le sz (len + 1) ltac:(lia) ltac:(lia)). lia.
+Qed.
+Lemma chr_sz_small n sz : sz_small n sz -> sz_small (n + 1) (chr_sz n sz).
+Proof.
+  intros [Hn Hsz]. unfold sz_small, chr_sz. pose proof SBUFSZ_range.
+  destruct (Z.leb_spec sz (n + 2)); [|lia].
+  pose proof (NEXTSZ_ge sz 1 ltac:(lia) ltac:(lia)). pose proof (NEXTSZ_le sz 1 ltac:(lia) ltac:(lia)). lia.
+Qed.
+Lemma fits_small n sz r : sz_small n sz -> 0 <= r -> n + r <= 500000001 -> sbuf_fits sz r.
+Proof. intros [Hn Hsz] Hr Hb. unfold sbuf_fits. pose proof SBUFSZ_range. lia. Qed.
+Lemma make_small : sz_small 0 0.
+Proof. unfold sz_small. pose proof SBUFSZ_range. lia. Qed.
+
+Definition op_len (op : sop) : Z := Z.of_nat (length (op_cells op)).
+Definition ops_total (ops : list sop) : Z := fold_right (fun op a => op_len op + a) 0 ops.
+Lemma op_need_len op : 1 <= op_need op <= op_len op + 1 /\ 0 <= op_len op.
+Proof. destruct op; unfold op_len; cbn [op_need op_cells length]; unfold zb; rewrite ?map_length; lia. Qed.
+Lemma op_model_small sb op : sz_small (sb_n sb) (sb_sz sb) ->
+  sz_small (sb_n (op_model sb op)) (sb_sz (op_model sb op)) /\ sb_n (op_model sb op) = sb_n sb + op_len op.
+Proof.
+  intro H. destruct op as [c|bs os src|bs o s]; unfold op_len; cbn [op_model op_cells length]; unfold zb; rewrite ?map_length.
+  - unfold IoDefs.sbuf_chr. cbn [sb_n sb_sz]. rewrite Z.geb_leb. split; [apply (chr_sz_small _ _ H)|lia].
+  - unfold IoDefs.sbuf_mem. cbn [sb_n sb_sz]. rewrite Z.geb_leb, map_length. split; [apply mem_sz_small; [exact H|lia]|lia].
+  - unfold IoDefs.sbuf_mem. cbn [sb_n sb_sz]. rewrite Z.geb_leb. split; [apply mem_sz_small; [exact H|lia]|lia].
+Qed.
+Lemma ops_fit_small ops : forall sb, sz_small (sb_n sb) (sb_sz sb) -> sb_n sb + ops_total ops <= 500000000 -> ops_fit sb ops.
+Proof.
+  induction ops as [|op ops IH]; intros sb H Ht; [exact I|]. cbn [ops_fit ops_total fold_right] in *.
+  fold (ops_total ops) in Ht. pose proof (op_need_len op).
+  assert (0 <= ops_total ops) by (clear; induction ops as [|o r IHr]; cbn [ops_total fold_right]; [lia|pose proof (op_need_len o); fold (ops_total r); lia]).
+  destruct (op_model_small sb op H) as [Hsm Esm].
+  split; [apply (fits_small (sb_n sb)); [exact H|lia|lia]|]. apply IH; [exact Hsm|lia].
+Qed.
+
+(* from sbuf_make on: below 500 MB of text no hypothesis about sizes is left *)
+Theorem tr_sbuf_from_make (m0 : mem) ops d fuel :
+  let p := length m0 in
+  let m : mem := m0 ++ [[VInt 0; VInt 0; VInt 0]] in
+  Forall (op_src_ok m p) ops -> ops_total ops <= 500000000 ->
+  let sbk := IoDefs.sbuf_buf (fold_left op_model ops IoDefs.sbuf_make) in
+  let csk := flat_map op_cells ops in
+  callf cprog fuel (S d) F_sbuf_make [] m0 = Ok (VPtr p 0, m) /\
+  exists m1 b m2 rest, run_ops fuel (S (S (S d))) p ops m = Ok m1 /\
+    callf cprog fuel (S (S d)) F_sbuf_buf [VPtr p 0] m1 = Ok (VPtr b 0, m2) /\
+    nth_error m2 b = Some (map VInt csk ++ VInt 0 :: rest) /\
+    Z.of_nat (length (map VInt csk ++ VInt 0 :: rest)) = sb_sz sbk /\ sb_data sbk = map byte_of csk /\ 0 <= sb_n sbk < sb_sz sbk /\
+    (length m0 < b)%nat /\ forall b', (b' < length m0)%nat -> nth_error m2 b' = nth_error m0 b'.
+Proof.
+  intros p m Hs Ht sbk csk. split; [apply tr_sbuf_make|].
+  assert (R : sbuf_rep m p [] 0) by apply rep_make.
+  assert (Hf : ops_fit (sb_model [] 0) ops) by (apply ops_fit_small; [apply make_small|cbn [sb_model sb_n length]; lia]).
+  destruct (tr_sbuf_terminator_inside m p [] 0 ops d fuel R Hs Hf) as [m1 [b [m2 [rest [E1 [E2 [Hd [Hl [Hn [Hr [R2 [S2 [Db M]]]]]]]]]]]]].
+  change (sb_model [] 0) with IoDefs.sbuf_make in *. cbn [app] in *. fold sbk in Hl, Hn, Hr, R2, M. fold csk in Hd, Hl, Hn, R2, M.
+  exists m1, b, m2, rest. split; [exact E1|]. split; [exact E2|]. split; [exact Hd|]. split; [exact Hl|].
+  assert (Dm : sbuf_datab m p = None) by (eapply datab_null; unfold m, p; apply nth_error_app_new).
+  assert (Lm : length m = S (length m0)) by (unfold m; rewrite app_length; cbn [length]; lia).
+  destruct S2 as [L2 [D2 F2]].
+  split; [rewrite M; reflexivity|]. split; [exact Hr|]. split.
+  - rewrite Dm in D2. destruct D2 as [D2|[b2 [D2 Hb2]]]; [congruence|]. rewrite Db in D2. injection D2 as <-. lia.
+  - intros b' Hb'. rewrite F2.
+    + unfold m. apply nth_error_app_old. exact Hb'.
+    + rewrite Lm. lia.
+    + unfold p. lia.
+    + rewrite Dm. discriminate.
 Qed.
